@@ -110,7 +110,8 @@ def run_kernel(log_prob_fn, z0, n_steps, rng=None, numpy_io=False):
             prop = z.copy()
             for i in range(n):
                 m = ctx.choose(2 * d, weights=[1.0 / (2 * d)] * (2 * d), label=f"k{CONFIG['invocations']}s{step}p{i}")
-                prop[i, m // 2] += h if m % 2 == 0 else -h
+                hk = h[m // 2] if np.ndim(h) else h
+                prop[i, m // 2] += hk if m % 2 == 0 else -hk
         elif mode == "prw":
             prop = z + CONFIG["scale"] * np.asarray(rng.normal(size=z.shape), dtype=np.float64)
         elif mode == "det":
